@@ -73,7 +73,13 @@ func (p *Peers) Collect() (*WebRTCPeer, error) {
 	}
 	// Track new valid Snowflake in internal collection and pass along.
 	p.activePeers.PushBack(connection)
-	p.snowflakeChan <- connection
+	select {
+	case p.snowflakeChan <- connection:
+	case <-p.melt:
+		// The queue can be full of spare peers that closed before anyone
+		// popped them; do not keep collectLock (and End) waiting for a Pop
+		// once the collection is being shut down. End closes the peer.
+	}
 	return connection, nil
 }
 
